@@ -1,9 +1,15 @@
 #!/bin/bash
 # usage: seed_check.sh <seeded dir name, e.g. C08-11> [--tier thorough]  -- run the property's check against a scratch copy of /repo's sources with the seed applied (never /repo)
-D=$1; shift; P=${D%%-*}
+D=$1; P=${D%%-*}
 SCR=/tmp/verif_seedcheck_$D; rm -rf "$SCR"; mkdir -p "$SCR"
-rsync -a --exclude target --exclude .git --exclude web --exclude '*.snap' /repo/ "$SCR/"
+if [ "${2:-}" = "--tier" ]; then
+  # the thorough tier builds and runs the real compiler: the scratch copy is a complete workspace (with /repo's build output, so that only the changed crates are rebuilt)
+  rsync -a --exclude .git /repo/ "$SCR/"
+else
+  rsync -a --exclude target --exclude .git --exclude web --exclude '*.snap' /repo/ "$SCR/"
+fi
 (cd "$SCR" && patch -p1 -s -i "/verif/seeded/$D/patch.diff") || { echo "SEED $D: patch fails"; rm -rf "$SCR"; exit 0; }
+shift
 if [ "$1" = "--tier" ]; then
   OUT=$(VERIF_REPO=$SCR VERIF_EVIDENCE_DIR=$SCR/_ev /verif/check "$P" "$@" 2>&1 | grep "failed obligation\|^OK\|UNDECIDED" | cut -c1-300 | head -8)
 else
